@@ -602,6 +602,31 @@ func (g *G) genInvalRace(id string) *History {
 	return h
 }
 
+// genLocInval: a stored response for B; a successful unsafe request to A whose reply names B in Location or
+// Content-Location, in any spelling of B's URI (explicit / absent / empty default port, host case, dot segments,
+// relative forms) or of a look-alike on another origin; then B again.
+func (g *G) genLocInval(id string) *History {
+	h := &History{ID: id, Prop: g.prop, Class: "loc-inval", Backend: pick(g, "mem", "mem", "fs"), Logger: "discard"}
+	scheme := pick(g, "http", "https")
+	dport := map[string]string{"http": "80", "https": "443"}[scheme]
+	host := pick(g, "a.test", "shop.example", "[::1]")
+	b := scheme + "://" + host + "/b"
+	get := func(at int64, body string) Op {
+		return Op{Op: "req", AtNs: at, Method: "GET", URL: pick(g, b, scheme+"://"+host+":"+dport+"/b", strings.ToUpper(scheme)+"://"+strings.ToUpper(host)+"/b"),
+			Replies: []Reply{{Status: 200, Body: body, BodyFail: -1, Hdr: Hdr{{"Date", dateAt(at, 0)}, {"Cache-Control", "max-age=600"}}}}}
+	}
+	h.Ops = append(h.Ops, get(0, "b1"))
+	loc := pick(g, b, scheme+"://"+host+":"+dport+"/b", scheme+"://"+host+":/b", strings.ToUpper(scheme)+"://"+strings.ToUpper(host)+":"+dport+"/x/../b", "/b", "b", "./b", "//"+host+"/b", "//"+host+":"+dport+"/b",
+		// other origins: these must NOT invalidate B
+		scheme+"://"+host+":8080/b", map[string]string{"http": "https", "https": "http"}[scheme]+"://"+host+"/b", scheme+"://other."+strings.Trim(host, "[]")+"/b")
+	target := pick(g, scheme+"://"+host+"/a", scheme+"://"+host+":"+dport+"/a", scheme+"://"+host+"/dir/a")
+	h.Ops = append(h.Ops, Op{Op: "req", AtNs: 10 * sec, Method: pick(g, "POST", "PUT", "DELETE", "PATCH", "FOO"), URL: target,
+		Replies: []Reply{{Status: pick(g, 200, 201, 204, 303, 404, 500), BodyFail: -1, Body: "w",
+			Hdr: Hdr{{"Date", dateAt(10*sec, 0)}, {pick(g, "Location", "Content-Location"), loc}}}}})
+	h.Ops = append(h.Ops, get(20*sec, "b2"))
+	return h
+}
+
 // genRevalRace: two validations of one stale response overlap. The slow one is answered 304 (the origin
 // still had the old representation when it was asked), the fast one gets the new representation. When the
 // 304 arrives, what it confirms is no longer what the store holds.
